@@ -27,8 +27,8 @@ def _alarm(signum, frame):
 
 def _strategy(name):
     import sweetpea as sp
-    if name == "RandomGen0":
-        return sp.RandomGen(0)
+    if name.startswith("RandomGen") and name[9:].isdigit():
+        return sp.RandomGen(int(name[9:]))
     return getattr(sp, name)
 
 
